@@ -9,6 +9,8 @@ for d in ${@:-$(ls seeded)}; do
   out=$(tools/try_patch.sh /verif/seeded/$d/patch.diff $prop 2>&1)
   if echo "$out" | grep -q "^VIOLATION property=$prop"; then
     echo "caught  $d ($prop): $(echo "$out" | grep -c '^VIOLATION') violation line(s): $(echo "$out" | grep '^VIOLATION' | head -1 | sed 's/.*obligation=//' | cut -c1-120)"
+  elif python3 -c "import json,sys;sys.exit(0 if json.load(open('seeded/$d/meta.json')).get('known_gap') else 1)"; then
+    echo "known-gap $d ($prop): not caught (recorded as a known gap in its meta.json and in DESIGN.md 15)"
   else
     echo "MISSED  $d ($prop)"; echo "$out" | tail -3; rc=1
   fi
